@@ -963,3 +963,75 @@ def replay(ctx, rep, prop):
         if new:
             hits.append(new[0])
     return bool(hits), hits
+
+
+# ------------------------------------------------------------------------------------------------ the inputs themselves (C08)
+# which column of the shipped country table feeds which baseline constant (scale=country), with its unit factor: the "inputs" of the documented functions.
+# SCP capacity is shared out by capital expenditure (create_scp_csv.py), cellulosic sugar by wood-pulp production (create_pulp_csv.py).
+COLUMN_OF_CONSTANT = {
+    "POP": ("population", 1.0), "BIOFUEL_KCALS": ("biofuel_kcals", 1.0), "FEED_KCALS": ("feed_kcals", 1.0),
+    "HUMAN_INEDIBLE_FEED_BASELINE_MONTHLY": ("grasses_baseline", 1.0 / 12), "SCP_GLOBAL_PRODUCTION_FRACTION": ("percent_of_global_capex", 1.0),
+    "CS_GLOBAL_PRODUCTION_FRACTION": ("percent_of_global_production", 1.0), "INITIAL_SEAWEED_FRACTION": ("initial_seaweed_fraction", 1.0),
+    "SEAWEED_NEW_AREA_FRACTION": ("new_area_fraction", 1.0), "SEAWEED_MAX_AREA_FRACTION": ("max_area_fraction", 1.0),
+    "INITIAL_BUILT_SEAWEED_FRACTION": ("initial_built_fraction", 1.0), "INITIAL_CROP_AREA_HA": ("crop_area_1000ha", 1000.0),
+    "FISH_DRY_CALORIC_ANNUAL": ("aq_kcals", 1.0), "TONS_MILK_ANNUAL": ("dairy", 1.0), "INITIAL_MILK_CATTLE": ("dairy_cows", 1.0),
+    "INIT_SMALL_ANIMALS": ("small_animals", 1.0), "INIT_MEDIUM_ANIMALS": ("medium_animals", 1.0),
+}
+
+
+def check_country_inputs(ctx, rows):
+    """(a) every baseline constant of a country-scale scenario is the column of the shipped table that feeds it;
+    (b) the row the multi-country driver hands to the scenario setters is the row of the table (run_model_no_trade's own sanity pass over the row
+        may not alter what the documented functions are functions of)"""
+    from src.scenarios.run_scenario import ScenarioRunner
+    from src.scenarios.run_model_no_trade import ScenarioRunnerNoTrade
+    import pandas as pd
+    for row in rows:
+        iso = iso_of(row)
+        with ctx.quiet():
+            try:
+                c, tc, sl = ScenarioRunner().set_depending_on_option(dict(BASE_OPTION), country_data=row)
+            except BaseException as e:  # noqa
+                ctx.count("country-inputs:dispatch-error:" + type(e).__name__)
+                continue
+        for const, (col, fac) in COLUMN_OF_CONSTANT.items():
+            if const not in c or col not in row:
+                ctx.count("country-inputs:not-present:" + const)
+                continue
+            got, want = float(np.asarray(c[const])), float(row[col]) * fac
+            if not wire.close(got, want, 1e-12, 0.0):
+                ctx.violation("baseline-not-from-its-column:" + const, "%s: %s = %r, the shipped table has %s x %g = %r" % (iso, const, got, col, fac, want),
+                              {"country": iso, "constant": const, "column": col})
+        ctx.case(("country-inputs", iso), nontrivial=True, sample={"country": iso, "constants_checked": len(COLUMN_OF_CONSTANT)})
+    ctx.count("country-input-rows", len(rows))
+    # (b) through the driver, the three-round run replaced by a recorder
+    seen = {}
+    orig = ScenarioRunnerNoTrade.run_optimizer_for_country
+
+    def rec(self, country_data, scenario_option, *a, **k):
+        seen[country_data["iso3"]] = country_data.copy()
+        return (1.0, "recorded", ("result-of", country_data["iso3"]))
+    ScenarioRunnerNoTrade.run_optimizer_for_country = rec
+    try:
+        with ctx.quiet():
+            ScenarioRunnerNoTrade().run_model_no_trade(title="verif_rows", create_pptx_with_all_countries=False, show_country_figures=False, show_map_figures=False,
+                                                       add_map_slide_to_pptx=False, scenario_option=dict(BASE_OPTION), countries_list=[], return_results=True)
+    finally:
+        ScenarioRunnerNoTrade.run_optimizer_for_country = orig
+    table = {iso_of(r): r for r in country_rows(ctx)}
+    for iso, got in seen.items():
+        want = table.get(iso)
+        if want is None:
+            continue
+        for col in want.index:
+            a, b = got.get(col), want[col]
+            same = (a == b) or (isinstance(a, float) and isinstance(b, float) and math.isnan(a) and math.isnan(b))
+            if not same:
+                # the one documented repair: a crop reduction a rounding error below -100 % is set to -100 %
+                repaired = str(col).startswith("crop_reduction_year") and isinstance(b, (int, float)) and -1 - 1e-8 < float(b) < -1 and float(a) == -1.0
+                if repaired:
+                    ctx.count("country-row:crop-reduction-rounding-repaired")
+                    continue
+                ctx.violation("country-row-altered:" + str(col), "%s: the driver hands the scenario setters %s = %r, the shipped table has %r" % (iso, col, a, b),
+                              {"country": iso, "column": str(col)})
+    ctx.count("country-rows-through-the-driver", len(seen))
